@@ -174,6 +174,22 @@ EXTRA_NATIVES = [
 ]
 
 
+def _late_natives():
+    import rustlib
+    def n_reverse(it, a, d, m):
+        x = pm.deref(a[0])
+        if isinstance(x, list):
+            x.reverse()
+        else:
+            r = a[0]
+            while isinstance(r.get(), mirsym.Ref):
+                r = r.get()
+            r.set(list(reversed(x)))
+        return UNIT
+    extra = [(re.compile(r"core::slice::<impl \[.*\]>::reverse"), n_reverse)]
+    return extra + rustlib.NATIVES
+
+
 def stack_advance(interp, args):
     """Stack::advance_clock: the row written for clk+1 becomes the current row"""
     s = pm.deref(args[0])
@@ -237,7 +253,8 @@ def operation_value(interp, name):
 def make_interp(max_paths=256):
     fns = load_fns()
     consts = pm.base_consts(REPO)
-    return mirsym.Interp(fns, EXTRA_NATIVES + pm.NATIVES, consts, max_paths=max_paths)
+    # generic library natives come last: the specific models above take precedence
+    return mirsym.Interp(fns, EXTRA_NATIVES + pm.NATIVES + _late_natives(), consts, max_paths=max_paths)
 
 
 def summarize_op(interp, meta_cols, op_name, overflow_items=0):
